@@ -145,7 +145,8 @@ class Real:
         rf = lst("%d/%d/%s/%d/%d" % (int(k), r.frag_count, "".join("0" if f is None else "1" for f in r.fragments),
                                      self.ticks(r.ctime), int(r.msgseq)) for k, r in conn.received_fragments.items())
         pf = lst("%d>%d" % (int(k), conn._v_frag.index(v)) for k, v in conn.pending_fragments.items())
-        ro = lst("%d/%d/%s" % (int(r.seq_message), 1 if r.done else 0, self.cb_repr(conn, r.callback)) for r in conn._v_retry)
+        ro = lst("%d/%d/%s" % (int(r.seq_message), 1 if getattr(r, "done", False) else 0, self.cb_repr(conn, r.callback))
+                 for r in conn._v_retry)
         fo = lst("%d/%d/%s" % (int(f.frag_id), rv(f.retry), "".join("n" if a is None else ("t" if a else "f") for a in f.acks))
                  for f in conn._v_frag)
         s = conn.stats
@@ -234,6 +235,8 @@ class CaseRun:
         muts = [x[4:] for x in w[2:] if x.startswith("mut=")]
         if op == "mtu":
             C.Packet.setMTU(int(w[1]))
+        elif op == "now":
+            real.now = int(w[1])        # clock value before the first timed operation of the case
         elif op == "new":
             eps[w[1]] = {"conn": real.new_endpoint(w[1], w[2]), "emits": []}
         elif op == "set":
@@ -504,6 +507,7 @@ def gen_two_party(real, rng, cid, mtu=1500, steps=50, loss=0.15, dup=0.1, delay=
                 emit("set %s ss=%d sm=%d sf=%d" % (e, start.get("ss", 0), start.get("sm", 0), start.get("sf", 0)))
         sizes = sizes or size_pool(mtu)
         t = BASE_T + rng.randint(0, 3000)
+        emit("now %d" % t)
         seed = rng.randint(1, 10 ** 6)
         cbid = 0
         inflight = []   # [due, dst, src, k]
@@ -512,7 +516,8 @@ def gen_two_party(real, rng, cid, mtu=1500, steps=50, loss=0.15, dup=0.1, delay=
             inflight.sort(key=lambda x: x[0])
             while inflight and inflight[0][0] <= now:
                 due, dst, src, kk = inflight.pop(0)
-                emit("recv %s t=%d d=@%s:%d" % (dst, max(due, 0), src, kk))
+                # stamped with the current time: the clock the code reads never runs backwards
+                emit("recv %s t=%d d=@%s:%d" % (dst, now, src, kk))
 
         def do_build(e, lossy=True):
             o = emit("build %s t=%d" % (e, t))
